@@ -52,3 +52,25 @@ Print Assumptions C03_token_stream_shape.
 Theorem C03_reference_parser_terminates : forall s, ref_parse s <> OOF.
 Proof. exact ref_parse_never_out_of_fuel. Qed.
 Print Assumptions C03_reference_parser_terminates.
+
+(** The code itself (the model of lexer.rs + parser.rs, tied to the code by the
+    correspondence check): an accepted expression lexes to the flattening of a
+    tree of the *extended* language [wfb true] — the grammar plus exactly four
+    forms: [&x] as an ordinary prefix form, a call applied to any operand that
+    denotes a field ([(a)(b)], ["f"(x)]), [&x] after a dot, a multi-select list
+    after a projection ([a[*][b,c]]) — followed by the end-of-input token, and the
+    returned tree is its abstract tree.  So every non-sentence the code compiles
+    belongs to one of the recorded deviation classes (known findings); all other
+    non-sentences are rejected. *)
+Theorem C03_code_accepts_only_the_extended_language : forall s t, parse s = Ok t ->
+  exists tokens c, tokenize s = Ok tokens /\ map snd tokens = flat c ++ [TEof] /\ erase c = t /\ wfb true c /\ prec lbp 0 c.
+Proof. exact code_parse_sound. Qed.
+Print Assumptions C03_code_accepts_only_the_extended_language.
+
+(** The extended language contains the grammar's, and is strictly larger. *)
+Theorem C03_grammar_trees_are_extended_trees : forall c, wfb false c -> wfb true c.
+Proof. exact wfb_mono. Qed.
+Print Assumptions C03_grammar_trees_are_extended_trees.
+
+Example C03_extension_is_proper : wfb true (CAmp CCurrent) /\ ~ wfb false (CAmp CCurrent).
+Proof. split; [cbn; auto|]. cbn. intros [H _]. discriminate H. Qed.
